@@ -24,6 +24,16 @@ pub struct Stats {
     pub values: Mutex<Vec<u64>>,
     /// optional scripted delay per call (microseconds), to perturb completion order under rayon
     pub jitter: AtomicU64,
+    /// when switched on: (thread, 0 = start / 1 = end, solution) of every objective call, in observed order
+    pub log_events: std::sync::atomic::AtomicBool,
+    pub events: Mutex<Vec<(u64, u8, String)>>,
+}
+
+fn thread_key() -> u64 {
+    use std::hash::{Hash, Hasher};
+    let mut h = std::collections::hash_map::DefaultHasher::new();
+    std::thread::current().id().hash(&mut h);
+    h.finish()
 }
 
 impl Stats {
@@ -40,6 +50,16 @@ impl Stats {
             }
         }
         self.values.lock().unwrap().push(v.to_bits());
+    }
+    pub fn enter(&self, sol: impl FnOnce() -> String) {
+        if self.log_events.load(Ordering::Relaxed) {
+            self.events.lock().unwrap().push((thread_key(), 0, sol()));
+        }
+    }
+    pub fn leave(&self, sol: impl FnOnce() -> String) {
+        if self.log_events.load(Ordering::Relaxed) {
+            self.events.lock().unwrap().push((thread_key(), 1, sol()));
+        }
     }
     pub fn calls(&self) -> u64 {
         self.calls.load(Ordering::SeqCst)
@@ -115,8 +135,10 @@ impl Instrumented for RealProblem {
 }
 impl ObjectiveFunction for RealProblem {
     fn objective(&self, x: &Vec<f64>) -> SingleObjective {
+        self.stats.enter(|| Self::show(x));
         let v = self.pure(x);
         self.stats.record(v);
+        self.stats.leave(|| Self::show(x));
         v.try_into().unwrap()
     }
 }
@@ -158,8 +180,10 @@ impl Instrumented for BitProblem {
 }
 impl ObjectiveFunction for BitProblem {
     fn objective(&self, x: &Vec<bool>) -> SingleObjective {
+        self.stats.enter(|| Self::show(x));
         let v = self.pure(x);
         self.stats.record(v);
+        self.stats.leave(|| Self::show(x));
         v.try_into().unwrap()
     }
 }
@@ -229,8 +253,10 @@ impl Instrumented for TspProblem {
 }
 impl ObjectiveFunction for TspProblem {
     fn objective(&self, x: &Vec<usize>) -> SingleObjective {
+        self.stats.enter(|| Self::show(x));
         let v = self.pure(x);
         self.stats.record(v);
+        self.stats.leave(|| Self::show(x));
         v.try_into().unwrap()
     }
 }
